@@ -29,10 +29,24 @@ HIER = {
     "key_redefault": ({"Q": klass(decl=["k", "v"], body={"k": b(False), "v": b(True, I(0))}, key="k"),
                        "SQ": klass(bases=["Q"], body={"k": b(True, I(8))}),
                        "PQ": klass(bases=["Q"], spec=False, body={"k": b(True, I(7))})}, ["SQ", "PQ"]),
+    # a keyed parent with a hand-written constructor; decorated children re-default the key (and another attribute) or leave it alone
+    "key_hand_parent": ({"P": klass(decl=["k", "v"], body={"k": b(False), "v": b(False)}, key="k", hand=[("k", 100), ("v", 1)]),
+                         "C": klass(bases=["P"], body={"k": b(True, I(8)), "v": b(True, I(5))}),
+                         "E": klass(bases=["P"], decl=["e"], body={"e": b(True, I(3)), "v": b(True, I(4))})}, ["P", "C", "E"]),
     # an inherited init=False attribute re-declared through Attr(...) (constructor argument again) / merely re-defaulted (still not one)
     "init_false_redeclared": ({"P": klass(decl=["a", "x"], body={"a": b(True, I(1), init=False), "x": b(True, I(0))}),
                                "Q": klass(bases=["P"], decl=["a"], body={"a": b(True, I(5), as_attr=True)}),
                                "R": klass(bases=["P"], body={"a": b(True, I(6))})}, ["Q", "R"]),
+    # the key of the class under construction is not the key of the parent being constructed: unkeyed first parent + keyed second parent,
+    # two parents with different keys, a child declaring a new key
+    "key_second_parent": ({"A": klass(decl=["a"], body={"a": b(True, I(1))}),
+                           "B": klass(decl=["k", "bb"], body={"k": b(False), "bb": b(True, I(2))}, key="k"),
+                           "C": klass(bases=["A", "B"], decl=["c"], body={"c": b(True, I(3))})}, ["C"]),
+    "key_two_keys": ({"A": klass(decl=["ka", "a"], body={"ka": b(False), "a": b(True, I(1))}, key="ka"),
+                      "B": klass(decl=["kb", "bb"], body={"kb": b(False), "bb": b(True, I(2))}, key="kb"),
+                      "C": klass(bases=["A", "B"], decl=["c"], body={"c": b(True, I(3))})}, ["C"]),
+    "key_child_new": ({"P": klass(decl=["k", "v"], body={"k": b(False), "v": b(True, I(0))}, key="k"),
+                       "C": klass(bases=["P"], decl=["k2"], body={"k2": b(False)}, key="k2")}, ["C"]),
     "overflow_init_false": ({"O": klass(decl=["a", "hid", "extra"], body={"a": b(True, I(1)), "hid": b(True, I(2), init=False), "extra": b(False)}, overflow="extra")}, ["O"]),
     "init_false": ({"P": klass(decl=["a", "hid"], body={"a": b(True, I(1)), "hid": b(True, I(2), init=False)}),
                     "C": klass(bases=["P"], decl=["c"], body={"c": b(True, I(3))})}, ["P", "C"]),
@@ -166,6 +180,16 @@ def gamma(v):
     return v["i"] if v["t"] == "int" else v["s"]
 
 
+def key_of(classes, ns, cname):
+    mro = [k.__name__ for k in ns[cname].__mro__ if k.__name__ in classes and classes[k.__name__]["spec"]]
+    while mro:
+        c = classes[mro[0]]
+        if c["key"]["set"]:
+            return c["key"]["name"]
+        mro = [k.__name__ for k in ns[mro[0]].__mro__ if k.__name__ in classes and classes[k.__name__]["spec"]][1:]
+    return ""
+
+
 def run_cases(job):
     name, cases = job
     ns = build(name)
@@ -175,7 +199,9 @@ def run_cases(job):
     for case in cases:
         cls = ns[case["c"]]
         kws = case["kws"]
-        for positional in ([False, True] if kws and any(classes[k]["key"]["set"] and classes[k]["key"]["name"] == kws[0]["k"] for k in classes) else [False]):
+        # the key of the class may be passed positionally (which attribute that is follows from the decorator arguments along the real MRO:
+        # own key, else the key of the first spec class after it)
+        for positional in ([False, True] if kws and key_of(classes, ns, case["c"]) == kws[0]["k"] else [False]):
             del ns["POSTS"][:]
             res, attrs = "ok", {}
             try:
